@@ -245,6 +245,43 @@ func (ex *Exec) recvAssume(fr *Frame, in *ssa.UnOp, pc Term, st State, v Term) {
 	}
 }
 
+// assumeAfter: explicit assumptions about the effect of a library call,
+// written in the contract as `assume after <callee> label: expr because ...`.
+func (ex *Exec) assumeAfter(fr *Frame, in *ssa.Call, pc Term, st State) {
+	specs := ex.siteSpecs("assume-after")
+	if len(specs) == 0 {
+		return
+	}
+	names := calleeNames(in.Common())
+	for _, s := range specs {
+		if !contains(names, s.Target) {
+			continue
+		}
+		s.Hits++
+		se := ex.newSpecEnv(fr, pc, st, ex.rootEntry())
+		if t, ok := fr.vals[in]; ok {
+			if t.Tuple != nil {
+				for i, x := range t.Tuple {
+					se.vars[fmt.Sprintf("ret%d", i)] = SVal{T: x, Ty: in.Type().(*types.Tuple).At(i).Type()}
+				}
+			} else {
+				se.vars["ret"] = SVal{T: t, Ty: in.Type()}
+				se.vars["ret0"] = se.vars["ret"]
+			}
+		}
+		for i, a := range in.Common().Args {
+			se.vars[fmt.Sprintf("arg%d", i)] = SVal{T: ex.val(fr, a), Ty: a.Type()}
+		}
+		fact, err := se.evalBool(s.C.E)
+		if err != nil {
+			ex.vc.note(fmt.Sprintf("assume %s not usable: %v", s.C.Label, err))
+			continue
+		}
+		ex.vc.assume(pc, ex.vc.def("assumed", fact), "assumed after "+s.Target+": "+s.C.Label)
+		ex.assumed[fmt.Sprintf("%s: after %s, %s (%s)", ex.fnID, s.Target, s.C.Src, s.Why)] = true
+	}
+}
+
 func (ex *Exec) useUFun(u *UFun) {
 	if ex.ufunUsed[u.Name] {
 		return
